@@ -1008,6 +1008,54 @@ def rule_r11(repo, run):
     import_rules(run, R, c02, repo, {"C02.R2"})
 
 
+def rule_r12(repo, run):
+    R = run.rule("C04.R12", "bind(C) derived types mirror the C struct member by member: a pointer member is type(C_PTR), a "
+                            "fixed-size array member keeps its element type and extent, in declaration order")
+    from sa import decide
+    wf = repo.module("wrapf")
+    dm = repo.module("declast")
+    fn = wf.func("Wrapf.wrap_struct")
+    loops = [l for l in ast.walk(fn) if isinstance(l, ast.For) and wf.seg(l.iter) == "node.variables"]
+    run.check(R, "wrapf.Wrapf.wrap_struct:member-order", len(loops) == 1,
+              "the derived type must list the members of node.variables in declaration order", wf.loc(fn))
+    if not loops:
+        return
+    sem = decide.pointer_predicates(dm)
+    chain = [st for st in loops[0].body if isinstance(st, ast.If)]
+    for desc, op, arr, want_ptr in (("scalar member", None, False, False), ("pointer member", "*", False, True),
+                                    ("fixed-size array member", None, True, False)):
+        def oracle(e, op=op, arr=arr):
+            if isinstance(e, ast.Call) and isinstance(e.func, ast.Attribute):
+                m_ = e.func.attr
+                if m_ in sem:
+                    return op in sem[m_]
+                if m_ == "is_array":
+                    return arr or op is not None
+            return None
+        taken = decide.take(chain, oracle)
+        if taken is None:
+            run.unmodelled_site(R, "wrapf.Wrapf.wrap_struct[%s]" % desc, "member chain not decidable")
+            continue
+        text = " ".join(x for st in taken for x in pattern.strings(st))
+        got_ptr = "type(C_PTR)" in text
+        run.check(R, "wrapf.Wrapf.wrap_struct[%s]" % desc, got_ptr == want_ptr,
+                  "a %s is declared %s in the bind(C) derived type: size and offsets of the Fortran type differ from the C "
+                  "struct" % (desc, "as a single type(C_PTR)" if got_ptr else "with its value type instead of type(C_PTR)"),
+                  wf.loc(loops[0]), sample=dict(member=desc, c_ptr=got_ptr))
+    # assumed-rank dummies of the interface are declared (..) whatever rank/dimension attributes say
+    sf = wf.func("Wrapf.set_fmt_fields")
+    ar = [a for a in ast.walk(sf) if isinstance(a, ast.Assign) and isinstance(a.targets[0], ast.Attribute)
+          and a.targets[0].attr == "f_c_dimension" and pyflow.const_str(a.value) == "(..)"]
+    ok = len(ar) == 1
+    if ok:
+        conds = [(str(wf.seg(t)), pol) for t, pol in pyflow.dominating_tests(ar[0], stop=sf)]
+        ok = len(conds) == 1 and "assumed-rank" in conds[0][0] and conds[0][1]
+    run.check(R, "wrapf.Wrapf.set_fmt_fields:assumed-rank", ok,
+              "`f_c_dimension = '(..)'` must depend on the assumed-rank mark alone; placed behind the rank/dimension tests it is "
+              "unreachable under F_CFI (dimension is '..' there) and the interface declares a scalar where C expects a "
+              "descriptor", wf.loc(sf))
+
+
 def run(repo, run, tier):
     tables.check_model_assumptions(repo)
     table = tables.StatementTable(repo, "statements", "fc_statements")
@@ -1024,6 +1072,7 @@ def run(repo, run, tier):
     rule_r9(repo, run)
     rule_r10(repo, run, table)
     rule_r11(repo, run)
+    rule_r12(repo, run)
     run.assumptions.extend([
         "LP64 / ISO_C_BINDING interoperability table in sa/interop.py",
         "table semantics model (base/mixin/language selection) mirrors statements.update_stmt_tree; "
